@@ -171,9 +171,18 @@ def split_and(line):
     return out
 
 
+_BUILD_DIRS = []
+
+
 def canon(argv):
-    # (the program word keeps a leading `./`: `./prog` and `prog` are not the same program)
-    return tuple(a if i == 0 else norm_path(a) for i, a in enumerate(x for x in argv if x != '-fdiagnostics-color'))
+    # (the program word keeps a leading `./`: `./prog` and `prog` are not the same program; the two backends are
+    # configured into two build directories, so an absolute spelling of the build directory -- flags taken from the
+    # project's own uninstalled .pc files -- is compared by name)
+    def same_builddir(a):
+        for d in _BUILD_DIRS:
+            a = a.replace(d, '<builddir>')
+        return a
+    return tuple(a if i == 0 else same_builddir(norm_path(a)) for i, a in enumerate(x for x in argv if x != '-fdiagnostics-color'))
 
 
 class CrossBackend(Bounded):
@@ -236,6 +245,7 @@ class CrossBackend(Bounded):
             def run(cmd, **kw):
                 return subprocess.run(cmd, env=env, capture_output=True, text=True, timeout=300, **kw)
             bm, bn = top + '/bm', top + '/bn'
+            _BUILD_DIRS[:] = [bm, bn]
             for be, b in (('make', bm), ('ninja', bn)):
                 spec = PROJECTS[raw['project']] + (None, None)
                 extra_args = ['--no-resolve-packages']
